@@ -153,11 +153,13 @@ func (c *Conn) close() error {
 	}
 	runtime.SetFinalizer(c, nil)
 	close(c.closed)
+	verifPoint(c, "close.closed")
 
 	// Have to close after c.closed is closed to ensure any goroutine that wakes up
 	// from the connection being closed also sees that c.closed is closed and returns
 	// closeErr.
 	err := c.rwc.Close()
+	verifPoint(c, "close.rwcClosed")
 	// With the close of rwc, these become safe to close.
 	c.msgWriter.close()
 	c.msgReader.close()
@@ -179,9 +181,11 @@ func (c *Conn) timeoutLoop() {
 		case readCtx = <-c.readTimeout:
 
 		case <-readCtx.Done():
+			verifPoint(c, "timeoutLoop.readCtxDone")
 			c.close()
 			return
 		case <-writeCtx.Done():
+			verifPoint(c, "timeoutLoop.writeCtxDone")
 			c.close()
 			return
 		}
@@ -226,6 +230,7 @@ func (c *Conn) ping(ctx context.Context, p string) error {
 	if err != nil {
 		return err
 	}
+	verifPoint(c, "ping.sent")
 
 	select {
 	case <-c.closed:
@@ -269,6 +274,7 @@ func (m *mu) lock(ctx context.Context) error {
 	case <-ctx.Done():
 		return fmt.Errorf("failed to acquire lock: %w", ctx.Err())
 	case m.ch <- struct{}{}:
+		verifPoint(m.c, "mu.locked")
 		// To make sure the connection is certainly alive.
 		// As it's possible the send on m.ch was selected
 		// over the receive on closed.
@@ -284,6 +290,7 @@ func (m *mu) lock(ctx context.Context) error {
 }
 
 func (m *mu) unlock() {
+	verifPoint(m.c, "mu.unlock")
 	select {
 	case <-m.ch:
 	default:
